@@ -54,6 +54,8 @@ def check(ctx, rep):
             rep.fail("T-DIFF-SYM", "%s|T-DIFF-SYM|%s" % (DIFF, V.world_str(a, b)), "diff(a,b) = %s but diff(b,a) = %s" % (g1, g2),
                      example="%s vs %s" % (V.example_version(a), V.example_version(b)))
     rep.analysed_item("Version::diff interpreted (with Version::cmp and is_prerelease as callees) on %d worlds" % n)
+    if rep.inconclusive:
+        witness(rep, prog, names)
     display(rep, prog, names)
 
 
@@ -77,3 +79,27 @@ def display(rep, prog, names):
             rep.ok("T-DIFF-DISPLAY")
         else:
             rep.fail("T-DIFF-DISPLAY", "%s|T-DIFF-DISPLAY|%s" % (key, nm), "prints %r, node-semver calls it %r" % (text, NPM_NAMES.get(nm)))
+
+
+def witness(rep, prog, names):
+    """the per-field abstraction did not apply (fields compared across each other or with other literals): look for a
+    concrete counterexample among small joint valuations. A mismatch is genuine; none found leaves the check inconclusive."""
+    rep.rule("T-DIFF-WITNESS", 0, "witness search over small joint valuations when the per-field abstraction does not apply")
+    n = bad = 0
+    for a, b in V.witness_worlds():
+        st, r, it = V.run2(prog, DIFF, a, b, witness=True)
+        if st != "ok":
+            continue
+        n += 1
+        got = names[r.fields[0].variant] if is_some(r) else None
+        exp = V.ref_diff(a, b)
+        if got == exp:
+            rep.ok("T-DIFF-WITNESS")
+        else:
+            bad += 1
+            if bad <= 3:
+                sp = it.ret_span.get(DIFF)
+                rep.fail("T-DIFF-WITNESS", "%s|T-DIFF-WITNESS|expected %s got %s" % (DIFF, exp, got),
+                         "diff = %s, node-semver reports %s" % (got, exp), where=prog.span_str(sp) if sp else None,
+                         expected=exp, actual=got, example="%s vs %s" % (V.example_version(a), V.example_version(b)))
+    rep.analysed_item("witness search: %d small joint valuations, %d mismatches" % (n, bad))
